@@ -154,13 +154,24 @@ def run(tier):
             c.finding("c16:location-labels:failed-parse-residue-taken-by-proc_location",
                       "a %s fault in the %s label `%s` -> `%s` replaced the same location's %s label: %s -> %s" % (fc, b[0], rep["original"], ftext, "invariant" if b[0] == "rate" else "rate", json.dumps(d[0][1]), json.dumps(d[0][2])),
                       dict(rep, differences=d))
+        elif d and re.search(r"\b(forall|exists|sum)\s*\(", rep["original"]) and all(re.search(r"/symbols|/typedefs|/warnings", x[0]) for x in d):
+            # call site: expr_forall_begin / expr_exists_begin / expr_sum_begin push a scope that only the matching *_end pops; a fault in the
+            # body abandons the rule, the scope stays on the builder's frame stack and later declarations (here: the system block's) land in it
+            c.finding("c16:scope-of-abandoned-quantifier-stays-open",
+                      "a %s fault in the body of the quantifier in the %s label `%s` -> `%s` leaves the quantifier's scope open: %s: %s -> %s" % (fc, b[0], rep["original"], ftext, d[0][0], json.dumps(d[0][1])[:80], json.dumps(d[0][2])[:80]),
+                      dict(rep, differences=d))
         elif d:
             c.finding("c16:%s:%s:%s" % (b[0], fc, docgen.diff_class(d[0])),
                       "a %s fault in the %s label `%s` -> `%s` changed the document outside the label at %s: %s -> %s" % (fc, b[0], rep["original"], ftext, d[0][0], json.dumps(d[0][1])[:120], json.dumps(d[0][2])[:120]),
                       dict(rep, differences=d))
         if diags(db, path) != diags(df, path):
             extra = [x for x in diags(df, path) if x not in diags(db, path)]
-            c.finding("c16:%s:%s:diag-elsewhere" % (b[0], fc), "a %s fault in the %s label `%s` -> `%s` produced a diagnostic attributed to another block: %s" % (fc, b[0], rep["original"], ftext, extra[:2]),
+            quant = re.search(r"\b(forall|exists|sum)\s*\(", rep["original"]) is not None
+            if quant and extra and all(x[0].startswith("W:") for x in extra):
+                c.finding("c16:scope-of-abandoned-quantifier-stays-open", "a %s fault in the body of the quantifier in the %s label `%s` -> `%s` leaves the quantifier's scope open: later blocks get %s" % (fc, b[0], rep["original"], ftext, extra[:2]), dict(rep, diagnostics_outside=extra))
+                extra = []
+            if extra or not quant:
+              c.finding("c16:%s:%s:diag-elsewhere" % (b[0], fc), "a %s fault in the %s label `%s` -> `%s` produced a diagnostic attributed to another block: %s" % (fc, b[0], rep["original"], ftext, extra[:2]),
                       dict(rep, diagnostics_outside=extra))
         # with static analysis
         dba, dfa = rba["dump"]["doc"], rfa["dump"]["doc"]
